@@ -27,7 +27,7 @@ CACHES = [1, 3, 4, 8, 32, 128]
 RUN_TIMEOUT = 12            # seconds; a normal run takes 0.1 - 1.5 s
 LEVELS = ["parity", "2-parity", "3-parity", "4-parity", "5-parity", "6-parity"]
 TAGS = ("error:", "parity_error:", "summary:", "fixed:", "unrecoverable:", "block_count:", "info_count:",
-        "outofparity:")
+        "outofparity:", "scan:")
 
 # model checking configurations: phases run one after the other, the (cfg, workers) of a phase in parallel.
 # Liveness checking in TLC scales poorly with workers, so the configurations with the Termination property
@@ -90,7 +90,8 @@ SHIM = [None]
 T_BASE, T_RUN = 1700000000, 1700100000     # frozen clock of the base syncs / of the compared runs
 
 
-def run_snap(binary, root, cache, cmd, log, trace=None, yseed=None, sigint_after=None, outside=False, now=T_RUN, slow=None):
+def run_snap(binary, root, cache, cmd, log, trace=None, yseed=None, sigint_after=None, outside=False, now=T_RUN, slow=None,
+             slowscan=None):
     """returns (rc, timed_out, stdout+stderr).  The clock is frozen by the LD_PRELOAD shim (time() only;
     nothing is traced or injected) so that the info times recorded in the content files are comparable."""
     env = dict(os.environ)
@@ -107,6 +108,10 @@ def run_snap(binary, root, cache, cmd, log, trace=None, yseed=None, sigint_after
         # the reads of one data disk are made slow (2 ms each): its reader finishes last in every stripe, whatever its index
         env["VSHIM_ROOT"] = root
         env["VSHIM_RULES"] = "pread,/d%d/,0,delay,2" % slow
+    if slowscan and SHIM[0]:
+        # the scanner thread of one data disk starts 40 ms after the others (opendir of its root and of its directories)
+        env["VSHIM_ROOT"] = root
+        env["VSHIM_RULES"] = (env.get("VSHIM_RULES", "") + ";" if slow else "") + "opendir,/d%d/,0,delay,40" % slowscan
     if trace:
         env["SNAPRAID_VERIF_IOTRACE"] = trace
     if yseed is not None:
@@ -365,6 +370,46 @@ def make_scenarios(seed, big=True):
             f.write(b"rot")
         os.utime(p, ns=(st.st_atime_ns, st.st_mtime_ns))
     S.append(Scenario("scrub-touched-and-rotten-3d2p", 3, 2, base6, e6, ["-p", "full", "scrub"], expect_rc=(1,)))
+
+    # S7: files moved from one disk to another, in both directions of the configuration order (same name, size and time stamp,
+    # gone from the source): the copy detection of each scanner thread looks into the files of the other disks, the result must
+    # not depend on which scanner finishes first (jobs with one late scanner each)
+    base7 = [("d1/m", rbytes(seed * 100 + 80, 3 * kb)), ("d2/keep", rbytes(seed * 100 + 81, 2 * kb)),
+             ("d3/n", rbytes(seed * 100 + 82, 2 * kb + 7)), ("d1/keep", rbytes(seed * 100 + 83, 100)),
+             ("d3/keep", rbytes(seed * 100 + 84, 100)), ("d2/o", rbytes(seed * 100 + 85, 4 * kb))]
+
+    def e7(root):
+        for src, dst in (("d1/m", "d2/m"), ("d3/n", "d1/n"), ("d2/o", "d3/sub/o")):
+            ps = os.path.join(root, src)
+            st = os.stat(ps)
+            os.makedirs(os.path.dirname(os.path.join(root, dst)), exist_ok=True)
+            shutil.copyfile(ps, os.path.join(root, dst))
+            os.utime(os.path.join(root, dst), ns=(st.st_mtime_ns, st.st_mtime_ns))
+            os.remove(ps)
+    S.append(Scenario("sync-moved-across-disks-3d1p", 3, 1, base7, e7, ["sync"]))
+
+    # S8: scrub plans that select no stripe at all (nothing bad, nothing new): no task may be executed, whatever the cache depth
+    base8 = [("d1/a", rbytes(seed * 100 + 90, 4 * kb)), ("d2/b", rbytes(seed * 100 + 91, 3 * kb + 1)),
+             ("d3/c", rbytes(seed * 100 + 92, 5 * kb))]
+    S.append(Scenario("scrub-bad-nothing-3d2p", 3, 2, base8, lambda root: None, ["-p", "bad", "scrub"]))
+    S.append(Scenario("scrub-new-nothing-3d2p", 3, 2, base8, lambda root: None, ["-p", "new", "scrub"]))
+
+    # S9: a new file takes the positions freed by a deleted one and vanishes after the scan; in the same stripes another disk has
+    # changed blocks: these stripes need a parity update and are skipped, nothing may be written there - the parity keeps
+    # protecting the unchanged blocks of the third disk - in every mode
+    base9 = [("d1/keep", rbytes(seed * 100 + 110, 2 * kb)), ("d2/keep", rbytes(seed * 100 + 111, 2 * kb)),
+             ("d3/keep", rbytes(seed * 100 + 112, 2 * kb)),
+             ("d1/f1", rbytes(seed * 100 + 113, 6 * kb)), ("d2/f2", rbytes(seed * 100 + 114, 11 * kb)),
+             ("d3/f3", rbytes(seed * 100 + 115, 11 * kb)), ("d1/f4", rbytes(seed * 100 + 116, 5 * kb))]
+
+    def e9(root):
+        os.remove(os.path.join(root, "d1/f4"))                                     # frees 8..12 on d1
+        put(root, "d1/h", rbytes(seed * 100 + 117, 3 * kb), 1600000500)             # takes 8..10, vanishes / is touched during sync
+        put(root, "d2/f2", rbytes(seed * 100 + 118, 11 * kb), 1600000500)           # changed in place
+    S.append(Scenario("sync-skipped-needing-update-3d2p", 3, 2, base9, e9, ["--test-run", "rm -f {root}/d1/h", "sync"],
+                      expect_rc=(1,)))
+    S.append(Scenario("sync-skipped-needing-update-touch-3d2p", 3, 2, base9, e9,
+                      ["--test-run", "touch -d @1600000777 {root}/d1/h", "sync"], expect_rc=(1,)))
     return S
 
 
@@ -460,20 +505,25 @@ def _run(tier):
             # skewed readers: each data disk in turn is the slow one (threaded modes only)
             for dsk in range(1, sc.nd + 1):
                 jobs.append((sc, [3, 8, 128][dsk % 3], rnd.randrange(1, 2 ** 31), False, dsk))
+            # skewed scanners: each data disk in turn is scanned late (commands that scan: sync)
+            if "sync" in sc.cmd:
+                for dsk in range(1, sc.nd + 1):
+                    jobs.append((sc, [4, 1, 32][dsk % 3], rnd.randrange(1, 2 ** 31), False, None, dsk))
         counter = [0]
 
         def do_run(job, sigint=None, tagx=""):
             sc, cache, yseed, outside = job[:4]
             slow = job[4] if len(job) > 4 else None
+            slowscan = job[5] if len(job) > 5 else None
             counter[0] += 1
-            rid = "%s-c%d-y%d%s%s%s" % (sc.name, cache, yseed, "-out" if outside else "", "-slow%d" % slow if slow else "", tagx)
+            rid = "%s-c%d-y%d%s%s%s" % (sc.name, cache, yseed, "-out" if outside else "", ("-slow%d" % slow if slow else "") + ("-slowscan%d" % slowscan if slowscan else ""), tagx)
             root = os.path.join(scratch, "w-" + rid)
             copy_prestate(pres[sc.name], root)
             tr = os.path.join(tdir, rid + ".ndjson")
             log = os.path.join(root, "log")
             cmd = [a.replace("{root}", root) for a in sc.cmd]
             rc, to, out = run_snap(binary, root, cache, cmd, log, trace=tr, yseed=yseed, sigint_after=sigint,
-                                   outside=outside, slow=slow)
+                                   outside=outside, slow=slow, slowscan=slowscan)
             r = {"id": rid, "scenario": sc.name, "cache": cache, "yseed": yseed, "outside": outside, "rc": rc,
                  "timeout": to, "trace": tr, "out": out[-1500:],
                  "replay_cmd": "SNAPRAID_VERIF_YIELD=%d SNAPRAID_VERIF_IOTRACE=<file> " % yseed +
